@@ -51,6 +51,7 @@ type attached struct {
 	spec   Cons
 	rc     *lalclient.Consumer
 	ts     *lalclient.TsConsumer
+	rs     *rtspCons
 	j      int // len(P) when it joined
 	minInc int // content of earlier incarnations must never reach it
 	gone   bool
@@ -67,6 +68,13 @@ type input struct {
 	kind string
 	p    *lalclient.Publisher
 	ctx  logic.ICustomizePubSessionContext
+	rt   *rtspInput
+}
+
+// unitRef locates one elementary unit (NAL unit, audio frame) by content.
+type unitRef struct {
+	inc  int
+	what string
 }
 
 type world struct {
@@ -82,6 +90,7 @@ type world struct {
 	pushes   []*pushConn // push connections of the current incarnation
 	late     []*stub.Conn // accepted, handshake withheld until the input has ended (PushLate)
 	tickSeq  uint32
+	units    map[string]unitRef // every published elementary unit by content
 }
 
 func (w *world) panicV() *pbt.Violation { return w.s.PanicViolation() }
@@ -93,7 +102,7 @@ func (w *world) group() *logic.Group { return w.s.SM.GetGroup("live", streamName
 func run(c Case) *pbt.Violation {
 	clk, restoreClk := inproc.UseFakeHlsClock()
 	defer restoreClk()
-	w := &world{c: c, clk: clk}
+	w := &world{c: c, clk: clk, units: map[string]unitRef{}}
 	var addrs []string
 	for i := 0; i < c.Push; i++ {
 		st, err := stub.NewRtmpStub()
@@ -104,7 +113,7 @@ func run(c Case) *pbt.Violation {
 		addrs = append(addrs, st.Addr)
 	}
 	w.s = inproc.New(inproc.Config{RtmpGopNum: c.RtmpGop, FlvGopNum: c.FlvGop, TsGopNum: c.TsGop, RtmpMergeWrite: c.Merge,
-		DisableRtsp: true, DisableTs: !c.HttpTs, Hls: c.Hls, HlsFragmentMs: c.FragMs, HlsFragmentNum: 6, RecordFlv: c.RecFlv, RecordTs: c.RecTs,
+		DisableRtsp: !c.Rtsp, DisableTs: !c.HttpTs, Hls: c.Hls, HlsFragmentMs: c.FragMs, HlsFragmentNum: 6, RecordFlv: c.RecFlv, RecordTs: c.RecTs,
 		PushAddrs: addrs, Hook: c.Hook})
 	var restoreFs func()
 	if c.Hls {
@@ -118,6 +127,9 @@ func run(c Case) *pbt.Violation {
 			}
 			if a.ts != nil {
 				a.ts.Close()
+			}
+			if a.rs != nil {
+				_ = a.rs.conn.Close()
 			}
 		}
 		if w.disposed {
@@ -161,6 +173,8 @@ func (w *world) join(ci int, inc int) *pbt.Violation {
 		a.rc = lalclient.NewFlvSub(w.s, "live", streamName, false)
 	case "ts":
 		a.ts = lalclient.NewTsSub(w.s, "live", streamName)
+	case "rtsp":
+		a.rs = w.joinRtsp() // asynchronous: DESCRIBE is answered once the stream has a session description
 	}
 	if a.rc != nil && a.rc.JoinErr() != nil {
 		if v := w.panicV(); v != nil {
@@ -172,7 +186,20 @@ func (w *world) join(ci int, inc int) *pbt.Violation {
 	return nil
 }
 
+// attachedSubs counts the subscribers that are certainly attached (RTSP
+// consumers join asynchronously: they may or may not be counted by lal yet).
 func (w *world) attachedSubs() int {
+	n := 0
+	for _, a := range w.cons {
+		if !a.gone && a.rs == nil {
+			n++
+		}
+	}
+	return n
+}
+
+// attachedSubsMax is the upper bound: every consumer that has not left.
+func (w *world) attachedSubsMax() int {
 	n := 0
 	for _, a := range w.cons {
 		if !a.gone {
@@ -194,6 +221,9 @@ func (w *world) startInput(i int) (*input, *pbt.Violation) {
 			return nil, pbt.V("publish-refused/cust", "incarnation %d: AddCustomizePubSession: %v (the previous input has left)", i, err)
 		}
 		return &input{kind: "cust", ctx: ctx}, nil
+	}
+	if in.Input == "rtsp" {
+		return w.startRtspInput(i)
 	}
 	p := lalclient.NewPublisher(w.s, "live", streamName, 4096)
 	if p.Err != nil {
@@ -222,6 +252,9 @@ func (w *world) send(inp *input, it gen.Item, cd gen.Codecs) *pbt.Violation {
 		}
 		return nil
 	}
+	if inp.kind == "rtsp" {
+		return w.sendRtsp(inp.rt, it, cd)
+	}
 	pl := it.Payload(cd)
 	msg := base.RtmpMsg{Header: base.RtmpHeader{Csid: 6, MsgLen: uint32(len(pl)), MsgTypeId: it.TypeID(), MsgStreamId: 1, TimestampAbs: it.Ts}, Payload: pl}
 	var err error
@@ -237,6 +270,9 @@ func (w *world) send(inp *input, it gen.Item, cd gen.Codecs) *pbt.Violation {
 func (w *world) quiesce(inp *input, what string) {
 	if inp.kind == "rtmp" && !inp.p.WaitIdle() {
 		lalclient.Harness("publisher not drained (%s)", what)
+	}
+	if inp.kind == "rtsp" && !inp.rt.conn.WaitPeerIdle(lalclient.IdleTimeout) {
+		lalclient.Harness("rtsp publisher not drained (%s)", what)
 	}
 }
 
@@ -328,7 +364,7 @@ func (w *world) incarnation(i int) *pbt.Violation {
 	if v := w.hookCheck(i, "after the input was accepted", i+1, i); v != nil {
 		return v
 	}
-	if inp.kind == "rtmp" {
+	if inp.kind != "cust" {
 		w.establishPushes(i)
 	} else {
 		w.pushes, w.late = nil, nil
@@ -359,22 +395,42 @@ func (w *world) incarnation(i int) *pbt.Violation {
 			if v := w.send(inp, it, in.Codecs); v != nil {
 				return v
 			}
+			if inp.kind == "rtsp" && it.Kind != "video" && it.Kind != "audio" {
+				continue // travels in the session description, not as a message
+			}
 			pl := it.Payload(in.Codecs)
 			if it.Kind == "meta" {
 				pl = gen.MetaBody(it.Variant)
 			}
+			x := len(w.P)
 			w.P = append(w.P, pmsg{rec: lalclient.Rec{Type: it.TypeID(), Ts: it.Ts, Payload: pl}, kind: it.Kind, key: it.Kind == "video" && it.Key, inc: i, item: it})
+			switch it.Kind {
+			case "video":
+				for ni, n := range it.Nals {
+					w.units[string(n.Bytes())] = unitRef{inc: i, what: fmt.Sprintf("NAL unit %d of the video frame at published index %d (incarnation %d, ts %d, key=%v)", ni, x, i, it.Ts, it.Key)}
+				}
+			case "audio":
+				body := pl[1:]
+				if in.Codecs.Audio == "aac" {
+					body = pl[2:]
+				}
+				w.units[string(body)] = unitRef{inc: i, what: fmt.Sprintf("audio frame at published index %d (incarnation %d, ts %d)", x, i, it.Ts)}
+			}
 		}
 	}
 	w.quiesce(inp, "after the last message")
 	if v := w.panicV(); v != nil {
 		return v
 	}
-	if v := w.statCheck(i); v != nil {
-		return v
-	}
-	if v := w.livenessWaits(i, incStart); v != nil {
-		return v
+	if inp.kind != "rtsp" {
+		// (an RTSP input reaches the RTMP-side outputs through lal's A/V interleave queue, which holds the newest
+		// frames: neither the stat fields nor the tail are due at a known instant)
+		if v := w.statCheck(i); v != nil {
+			return v
+		}
+		if v := w.livenessWaits(i, incStart); v != nil {
+			return v
+		}
 	}
 
 	// ---- the input ends
@@ -382,13 +438,15 @@ func (w *world) incarnation(i int) *pbt.Violation {
 	case "close":
 		if inp.kind == "rtmp" {
 			inp.p.Close()
+		} else if inp.kind == "rtsp" {
+			_ = inp.rt.conn.Close()
 		} else if w.s.Call("DelCustomizePubSession", func() { w.s.SM.DelCustomizePubSession(inp.ctx) }) {
 			return w.panicV()
 		}
 	case "kick":
 		sg := w.s.SM.StatGroup(streamName)
 		if sg == nil || sg.StatPub.SessionId == "" {
-			return pbt.V("kick/publisher-not-listed", "incarnation %d: StatGroup lists no publisher session while the RTMP publisher is attached", i)
+			return pbt.V("kick/publisher-not-listed", "incarnation %d: StatGroup lists no publisher session while the %s publisher is attached", i, inp.kind)
 		}
 		var resp base.ApiCtrlKickSessionResp
 		if w.s.Call("CtrlKickSession", func() {
@@ -423,15 +481,16 @@ func (w *world) incarnation(i int) *pbt.Violation {
 			return v
 		}
 	}
-	if inp.kind == "rtmp" {
-		if !inp.p.Conn.WaitPeerDone(lalclient.IdleTimeout) {
+	if inp.kind != "cust" {
+		pconn := inp.rt.connOr(inp.p)
+		if !pconn.WaitPeerDone(lalclient.IdleTimeout) {
 			sg := w.s.SM.StatGroup(streamName)
-			if in.End == "idle" && sg != nil && sg.StatPub.SessionId != "" && !inp.p.Conn.PeerGone() {
+			if in.End == "idle" && sg != nil && sg.StatPub.SessionId != "" && !pconn.PeerGone() {
 				return pbt.V("idle/silent-publisher-not-disconnected", "incarnation %d: the publisher sent nothing between two consecutive sweeps of the idle check, yet its session %s is still attached and its connection open", i, sg.StatPub.SessionId)
 			}
 			lalclient.Harness("teardown of incarnation %d (%s) did not finish", i, in.End)
 		}
-		inp.p.Close()
+		_ = pconn.Close()
 	}
 	if v := w.panicV(); v != nil {
 		return v
@@ -447,7 +506,7 @@ func (w *world) incarnation(i int) *pbt.Violation {
 		if a.gone {
 			continue
 		}
-		if a.ts != nil || !a.spec.Stay || in.End == "idle" || in.End == "dispose" {
+		if a.ts != nil || a.rs != nil || !a.spec.Stay || in.End == "idle" || in.End == "dispose" {
 			if v := w.leave(a); v != nil {
 				return v
 			}
@@ -512,6 +571,9 @@ func (w *world) livenessWaits(i, incStart int) *pbt.Violation {
 // leave closes the consumer from the client side and judges what it received.
 func (w *world) leave(a *attached) *pbt.Violation {
 	a.gone = true
+	if a.rs != nil {
+		return w.leaveRtsp(a)
+	}
 	if a.rc != nil {
 		recs := a.rc.Recs()
 		ferr := a.rc.Err()
